@@ -114,6 +114,33 @@ static int graph_build(ograph *g, decoder_t *d, int lang, int cionly, const vd_s
             }
         }
     }
+    /* alternate pronunciations: with fsgusealtpron every dictionary pronunciation word(2), word(3), ... of a word the grammar names by its
+     * base spelling is a legal way to say it, whichever of them the library has prepared arcs for (found by spelling, not through the
+     * dictionary's alternate chain) */
+    if (sp->usealtpron) {
+        int na0 = g->na, added = 0;
+        for (i = 0; i < na0; ++i) {
+            int kk; char sp2[200];
+            if (g->a[i].filler || strchr(g->a[i].word, '(')) continue;
+            for (kk = 2; kk <= 9; ++kk) {
+                int32 dw; int j2, have = 0, q2; oarc *a;
+                snprintf(sp2, sizeof(sp2), "%s(%d)", g->a[i].word, kk);
+                dw = dict_wordid(dict, sp2);
+                if (dw == BAD_S3WID) continue;
+                for (j2 = 0; j2 < g->na; ++j2) if (g->a[j2].from == g->a[i].from && g->a[j2].to == g->a[i].to && !strcmp(g->a[j2].word, sp2)) { have = 1; break; }
+                if (have) continue;
+                if (g->na == cap) { cap = cap ? cap * 2 : 64; g->a = (oarc *)realloc(g->a, sizeof(oarc) * (size_t)cap); }
+                a = &g->a[g->na]; memset(a, 0, sizeof(*a));
+                a->from = g->a[i].from; a->to = g->a[i].to; a->wid = -1; a->lp = g->a[i].lp; snprintf(a->word, sizeof(a->word), "%s", sp2);
+                a->np = dict_pronlen(dict, dw);
+                if (a->np > MAXP || a->np < 1) { *why = "pronunciation too long for the oracle"; g->na++; return -1; }
+                for (q2 = 0; q2 < a->np; ++q2) a->ph[q2] = dict_pron(dict, dw, q2);
+                a->filler = 0; ++g->na; ++added;
+            }
+        }
+        if (added) vh_count("grammars_where_the_oracle_adds_alternate_pronunciation_arcs", 1);
+        vh_count("oracle_alternate_arcs_added", added);
+    }
     /* the oracle's own closure of the null arcs (best product over every chain, Floyd-Warshall on the unshifted log probabilities):
      * a legal alignment may pass any chain of null transitions between two words, whatever composite arcs the library has prepared */
     if (g->nnl > 0 && g->ns <= 160) {
